@@ -221,7 +221,7 @@ func readAll(db data.DBWriteCacher, root []byte, r ref) string {
 			}
 			continue
 		}
-		for _, k := range []string{"k1", "k2"} {
+		for _, k := range []string{"k1", "k2", "zk1"} {
 			v, err := s.(state.UserAccountHandler).DataTrieTracker().RetrieveValue([]byte(k))
 			if err != nil && err != state.ErrNilTrie {
 				return "storage-unreadable: " + name + "." + k + ": " + err.Error()
@@ -262,7 +262,9 @@ type scenario struct {
 func scenarios() []scenario {
 	prefix := func(w *world) {
 		w.build()
-		w.block(write{"S", "k1", "x"}, write{"S", "k2", "x"}, write{"T", "k1", "x"}) // root 1
+		// "k1" is a byte-suffix of "zk1": the k1 leaf hangs in the terminator slot (16) of a
+		// branch of S's data trie (added after the independent seed C10-2)
+		w.block(write{"S", "k1", "x"}, write{"S", "k2", "x"}, write{"S", "zk1", "x"}, write{"T", "k1", "x"}) // root 1
 		w.block(write{"S", "k1", "yy"})                                              // root 2
 		w.finalize(2)
 	}
